@@ -47,6 +47,7 @@ class Return(NamedTuple):
     slope: FeArray
     drdtheta: FeArray
     active: FeArray
+    converged: FeArray
 
 
 class Eigenspace(NamedTuple):
@@ -108,9 +109,23 @@ def Solve(
     y_e_pg = _Field(eigen.Ti, sigTr_e_pg) @ sigTr_e_pg
 
     theta_e_pg = FeArray.zeros(*sigTr_e_pg.shape[:2])
-    phi_e_pg, _ = _Phi(y_e_pg, lam, theta_e_pg)
+    phi_e_pg, dphi_e_pg = _Phi(y_e_pg, lam, theta_e_pg)
     # a point yields when the trial state is already outside the surface
-    active_e_pg = phi_e_pg - sigma_y - hardening.R(pOld_e_pg) > 0.0
+    fTr_e_pg = phi_e_pg - sigma_y - hardening.R(pOld_e_pg)
+    active_e_pg = fTr_e_pg > 0.0
+
+    if rate is not None:
+        # dinverse is unbounded at zero flow, so Newton would not move from theta = 0. Start
+        # from the explicit rate estimate instead, brought back below the root by one Newton
+        # step on dGamma: the residual is convex in it, so from there the loop climbs to the
+        # root without overshooting into theta < 0 and being sent back to zero
+        dG_e_pg = np.where(active_e_pg, dt * rate.rate(fTr_e_pg), 0.0)
+        safe_e_pg = np.where(active_e_pg, phi_e_pg, 1.0)
+        dinv_e_pg = rate.dinverse(dG_e_pg / dt) / dt
+        # -dr/ddGamma at the trial state, where ddGamma/dtheta = phi
+        drdG_e_pg = hardening.dR(pOld_e_pg) - dphi_e_pg / safe_e_pg + dinv_e_pg
+        dG_e_pg = dG_e_pg * dinv_e_pg / drdG_e_pg
+        theta_e_pg = np.where(active_e_pg, dG_e_pg / safe_e_pg, 0.0)
 
     slope_e_pg = FeArray.zeros(*theta_e_pg.shape)
     for _ in range(maxIter):
@@ -136,6 +151,12 @@ def Solve(
     ddG_e_pg = phi_e_pg + theta_e_pg * dphi_e_pg
     drdtheta_e_pg = dphi_e_pg - slope_e_pg * ddG_e_pg
 
+    # the loop may also have run out of iterations: say so, point by point
+    r_e_pg = phi_e_pg - sigma_y - hardening.R(pOld_e_pg + dG_e_pg)
+    if rate is not None:
+        r_e_pg = r_e_pg - rate.inverse(dG_e_pg / dt)
+    converged_e_pg = ~active_e_pg | (np.abs(r_e_pg) < tol * sigma_y)
+
     d_e_pg = 1.0 / (1.0 + theta_e_pg * lam)
     sig_e_pg = _Field(eigen.T, y_e_pg) @ (y_e_pg * d_e_pg)
 
@@ -149,6 +170,7 @@ def Solve(
         slope_e_pg,
         drdtheta_e_pg,
         active_e_pg,
+        converged_e_pg,
     )
 
 
